@@ -277,6 +277,38 @@ def as_list_bytes(v):
     return list(as_bytes(v))
 
 
+@model('std::io::read_to_string')
+def _(I, a):
+    dst = StringObj([])
+    r = read_to_string(I, [a[0], Ref(Slot([dst], 0))])
+    return ok(dst) if r.variant == 'Ok' else r
+
+
+def read_line(I, a):
+    f = deref(a[0])
+    dst = deref(a[1])
+    if isinstance(f, Opaque) and f.kind == 'stdin':
+        raise Unsupported('read_line on stdin')
+    data = I.env.files[f.path]
+    n = 0
+    while f.pos < len(data):
+        b = data[f.pos]
+        if is_sym(b):
+            raise Unsupported('symbolic line structure in a config file')
+        dst.buf.append(b)
+        f.pos += 1
+        n += 1
+        if b == 10:
+            break
+    I.env.events.append(('read', f.path))
+    return ok(n)
+
+
+EXACT['<std::io::BufReader as std::io::BufRead>::read_line'] = read_line
+EXACT['<R as std::io::BufRead>::read_line'] = read_line
+EXACT['<impl BufRead as std::io::BufRead>::read_line'] = read_line
+
+
 @model('std::io::BufReader::new')
 def _(I, a):
     return a[0]
@@ -391,7 +423,7 @@ class NativeCli:
                     argv.append('--' + k)
                 else:
                     for x in v:
-                        argv += ['--' + k, bytes(x).decode()]
+                        argv.append('--' + k + '=' + bytes(x).decode())   # `--opt=value`: a value may begin with '-'
             env = dict(os.environ)
             if tz is None:
                 env.pop('TZ', None)
